@@ -125,3 +125,41 @@ Theorem C09_history_single_fault_documented :
     (spent w -> r = MOk tt).
 Proof. exact run_fault_documented. Qed.
 Print Assumptions C09_history_single_fault_documented.
+
+(* ------------------------------------------------------------------ *)
+(** ** the layering of the constructors New / NewWithFS
+    [ncfg q = mkConfig None [q] q]: HiddenFS directly over the OS filesystem
+    (no PrefixFS), the backup location [q] - an absolute cleaned path other
+    than "/" - hidden from the base and the root of the backup filesystem.
+    The base view [V0H q] (Spec/ViewRoot.v) is the WHOLE filesystem except the
+    location and what lies below it; it shows link targets as stored ([tn_0],
+    the identity: without PrefixFS nothing cleans them).  The root "/" is a
+    proper ancestor of the location ([anc_h q]): it cannot be removed (EBUSY)
+    or renamed.  Proofs/LawsNew.v. *)
+From BFS Require Import Spec.ViewHidden Spec.ViewRoot Proofs.LawsNew.
+
+Theorem C09_nil_only_if_restored_new :
+  forall q, hidden_ok q ->
+  forall B0, links_ok tn_0 clean (acc_0 q) (acc_p q) B0 -> all_small B0 -> swf B0 ->
+  loc_ok (hid_h q) (anc_h q) B0 ->
+  forall w r w', InvF (V0H q) (Vp q) B0 w ->
+  b_rollback (cfg_base (ncfg q)) (cfg_backup (ncfg q)) w = (r, w') ->
+  r <> MHalt /\
+  (r = MOk tt -> store_eqv (V0H q w') B0 /\ (forall p, p <> s_root -> Vp q w' !! p = None) /\
+                 w_infos w' = ∅).
+Proof. exact rollback_nil_new. Qed.
+Print Assumptions C09_nil_only_if_restored_new.
+
+Theorem C09_history_single_fault_new :
+  forall q, hidden_ok q ->
+  forall B0, all_small B0 ->
+  forall w0 ops w,
+    initialF (V0H q) (Vp q) tn_0 clean (acc_0 q) (acc_p q) B0 w0 ->
+    good_run (cfg_base (ncfg q)) (cfg_backup (ncfg q)) (V0H q) w0 ops w ->
+  InvF (V0H q) (Vp q) B0 w /\ recoverable (V0H q) (Vp q) B0 w /\
+  exists r w', b_rollback (cfg_base (ncfg q)) (cfg_backup (ncfg q)) w = (r, w') /\ r <> MHalt /\
+    (r = MOk tt -> store_eqv (V0H q w') B0 /\ (forall p, p <> s_root -> Vp q w' !! p = None) /\
+                   w_infos w' = ∅) /\
+    (spent w -> r = MOk tt).
+Proof. exact run_fault_new. Qed.
+Print Assumptions C09_history_single_fault_new.
